@@ -2,11 +2,11 @@ package main
 
 import (
 	"fmt"
-	"os"
 	"go/ast"
 	"go/token"
 	"go/types"
 	"math/big"
+	"os"
 	"sort"
 	"strings"
 
@@ -50,8 +50,8 @@ func (f *Frame) clone() *Frame {
 }
 
 type Outcome struct {
-	st      *State
-	results []Value
+	st       *State
+	results  []Value
 	panicked bool
 }
 
@@ -61,8 +61,8 @@ const maxPaths = 20000
 // ---------- loops ----------
 
 type loopInfo struct {
-	heads  []int            // block indices of loop heads, in block order
-	ord    map[int]int      // head block -> 1-based ordinal
+	heads  []int                // block indices of loop heads, in block order
+	ord    map[int]int          // head block -> 1-based ordinal
 	blocks map[int]map[int]bool // head -> set of blocks in the natural loop
 }
 
